@@ -242,7 +242,7 @@ def random_closed(rng, c, r, kinds=(2, 3, 4)):
     return BezierPath.fromSegments(segs)
 
 
-SHAPES = ['rect', 'ellipse', 'circle', 'star', 'selfx']
+SHAPES = ['rect', 'ellipse', 'circle', 'star', 'selfx', 'rect', 'ellipse', 'star', 'selfx', 'balloon', 'spiral2']
 
 
 def make_shape(rng, kind, c, size, integer=False):
@@ -262,6 +262,30 @@ def make_shape(rng, kind, c, size, integer=False):
         return star_contour(rng, c, 0.45 * size, 0.8 * size), size
     if kind == 'selfx':
         return random_closed(rng, c, 0.7 * size), size
+    if kind == 'balloon':
+        # a rectangle with a long lobe (one cubic) attached through a neck narrower than the 2-unit flattening step
+        w, h = rng.uniform(0.5, 0.9) * size, rng.uniform(0.4, 0.8) * size
+        eps = rng.uniform(0.3, 0.95)
+        x0, x1, y0, y1 = c.x - w / 2, c.x + w / 2, c.y - h / 2, c.y + h / 2
+        mx = c.x + rng.uniform(-0.3, 0.3) * w
+        lobe = rng.uniform(0.5, 1.0) * size
+        segs = [Line(P(x0, y0), P(x1, y0)), Line(P(x1, y0), P(x1, y1)), Line(P(x1, y1), P(mx + eps, y1)),
+                CubicBezier(P(mx + eps, y1), P(mx + lobe, y1 + lobe), P(mx - lobe, y1 + lobe), P(mx - eps, y1)),
+                Line(P(mx - eps, y1), P(x0, y1)), Line(P(x0, y1), P(x0, y0))]
+        return BezierPath.fromSegments(segs), max(w, h) / 2 + lobe
+    if kind == 'spiral2':
+        # a contour that winds TWICE round its centre: the core has winding number 2 (outside by the even-odd rule, inside by non-zero)
+        n = 8; ph = rng.uniform(0, 2 * math.pi)
+        vs = [P(c.x + size * (1.0 - 0.05 * i) * math.cos(ph + math.pi / 2 * i), c.y + size * (1.0 - 0.05 * i) * math.sin(ph + math.pi / 2 * i)) for i in range(n)]
+        segs = []
+        for i in range(n):
+            a, b = vs[i], vs[(i + 1) % n]
+            k = rng.choice([2, 2, 3, 4])
+            m = a.lerp(b, 0.5)
+            if k == 2: segs.append(Line(a, b))
+            elif k == 3: segs.append(QuadraticBezier(a, m + (m - c) * rng.uniform(0.0, 0.1), b))
+            else: segs.append(CubicBezier(a, a.lerp(b, 1 / 3.0) + (m - c) * rng.uniform(0.0, 0.1), a.lerp(b, 2 / 3.0) + (m - c) * rng.uniform(0.0, 0.1), b))
+        return BezierPath.fromSegments(segs), size
     raise ValueError(kind)
 
 
@@ -314,7 +338,36 @@ def gen_pair(rng, kinds=None, config=None, big=None):
             dy = ay1 - by0
             dx = ((ax0 + ax1) / 2 - (bx0 + bx1) / 2) + (rng.choice([0.0, 0.0, rng.uniform(-0.3, 0.3) * sa]) if kinds[0] == 'rect' or kinds[1] == 'rect' else 0.0)
         B = B0.translate(P(dx, dy)) if hasattr(B0, 'translate') else B0
-    return A, B, {'kinds': list(kinds), 'config': config, 'big': big, 'integer': integer}
+    meta = {'kinds': list(kinds), 'config': config, 'big': big, 'integer': integer}
+    if config == 'nested' and rng.random() < 0.5:
+        A, B = B, A; meta['kinds'] = [kinds[1], kinds[0]]; meta['swapped'] = True       # the small shape is the receiver
+        if kinds[0] == 'spiral2' and kinds[1] in ('rect', 'circle', 'ellipse', 'star'): meta['expect_empty'] = True    # receiver inside the doubly wound core
+    if rng.random() < 0.12:
+        # an operand that is itself the product of an earlier flatten(): straight edges that remember the curve they came from
+        which = rng.choice(['A', 'B']); meta['prepare'] = {which: ['flatten', rng.choice([20.0, 40.0, 60.0])]}
+    return A, B, meta
+
+
+def core_pair(rng=None):
+    """a small rectangle inside the doubly wound core of a two-turn spiral: outside the spiral's even-odd interior, so the
+    intersection is empty, the union is both outlines and the difference is the rectangle"""
+    import random as _r
+    rng = rng or _r.Random(7)
+    c = P(float(rng.randint(-200, 200)), float(rng.randint(-200, 200)))
+    B, _ = make_shape(rng, 'spiral2', c, float(rng.randint(80, 200)))
+    A = Rectangle(30.0, 20.0, origin=c)
+    return A, B, {'kinds': ['rect', 'spiral2'], 'config': 'in-core', 'expect_empty': True}
+
+
+def prepared(A, B, m):
+    """apply the history recorded in the case (m['prepare']) to freshly built operands"""
+    pr = (m or {}).get('prepare') or {}
+    out = []
+    for name, p in (('A', A), ('B', B)):
+        step = pr.get(name)
+        if step and step[0] == 'flatten': p = p.flatten(step[1])
+        out.append(p)
+    return out[0], out[1]
 
 
 # ----------------------------------------------------------------------------------------------- references (independent of beziers)
